@@ -572,7 +572,9 @@ class VM:
         k = p[0]
         if k == 'L':
             c = fr.locals.get(p[1])
-            if c is None: raise Unmodelled(f'read of unset local {p[1]} in {fr.fn.name}')
+            if c is None:
+                c = fr.locals[p[1]] = Cell(self.zst_value(fr, p[1]))
+                if c.v is UNINIT: raise Unmodelled(f'read of unset local {p[1]} in {fr.fn.name}')
             return c.v
         if k == 'F':
             base = self.read_place(fr, p[1])
@@ -615,7 +617,7 @@ class VM:
         k = p[0]
         if k == 'L':
             c = fr.locals.get(p[1])
-            if c is None: c = fr.locals[p[1]] = Cell(UNINIT)
+            if c is None: c = fr.locals[p[1]] = Cell(self.zst_value(fr, p[1]))
             return Ref(c)
         if k == 'F':
             r = self.place_ref(fr, p[1]); return Ref(r.cell, r.path + (p[2],))
@@ -643,6 +645,16 @@ class VM:
             r = self.place_ref(fr, p[1])
             return Ref(r.cell, r.path + (i,))
         raise Unmodelled('place ref ' + repr(p))
+
+    def zst_value(self, fr, local):
+        """zero-sized locals (capture-less closures, unit, fn items) are never assigned in MIR"""
+        t = fr.fn.locals.get(local, '')
+        if t.startswith('{closure@'):
+            f = self.mir.closures.get(t)
+            if f is not None: return Closure(f, [], fr.subst)
+        if t == '()': return UNIT
+        if t.startswith('PhantomData'): return Adt('PhantomData', 0, [])
+        return UNINIT
 
     def concretize(self, term):
         """a symbolic scalar that must be concrete to proceed: fork over its feasible values (bounded)"""
